@@ -829,6 +829,13 @@ class NodeFor:
         self.what = what
 
     def evaluate(self, environment):
+        # a variable of the enclosing scope that has the name of a loop
+        # variable is put back when the loop is over
+        saved = {
+            identifier: environment.map[identifier]
+            for identifier in self.identifiers
+            if identifier in environment.map
+        }
         try:
             return self.evaluateLoop(environment)
         except BaseException:
@@ -838,6 +845,8 @@ class NodeFor:
                 if identifier in environment.map:
                     environment.remove(identifier)
             raise
+        finally:
+            environment.map.update(saved)
 
     def evaluateLoop(self, environment):
         lst = self.expression.evaluate(environment)
